@@ -362,6 +362,12 @@ func lapackBase(c *vrt.Ctx, st *lapackStats, impl gonum.Implementation, l *lrout
 			fmt.Sprintf("%s changed storage it must not touch: %v", desc, tr), map[string]any{"call": desc, "params": p.String()})
 	}
 	nFaultBase := faultsOf(a)
+	if pn == nil && nonEmpty {
+		sampLapackValid.offer(c, 1, func() any {
+			return map[string]any{"sub_check": "lapack valid side", "call": desc, "slices": "exactly minimal, lwork = documented minimum",
+				"on_guard_pages": p.Guard, "outcome": "returned normally", "trespasses": len(a.Trespasses(false))}
+		})
+	}
 	a.Release()
 	if l.HasLWork && pn == nil && bi%4 == 1 {
 		lapackQueryAndOpt(c, st, impl, l, ri, bi, p, sizeClass)
@@ -411,6 +417,13 @@ func lapackBase(c *vrt.Ctx, st *lapackStats, impl gonum.Implementation, l *lrout
 			c.Violation(fmt.Sprintf("lapack.%s|%s|returned-normally", l.Name, path),
 				fmt.Sprintf("%s: argument %s is %s, every other argument is valid; the call returned normally", fdesc, f.arg, f.kind), replay)
 			continue
+		}
+		if nonEmpty {
+			sampLapackFault.offer(c, 1, func() any {
+				_, nch := im.firstChange(b, false)
+				return map[string]any{"sub_check": "lapack single fault", "call": fdesc, "argument": f.arg, "role": b.Arg(f.arg).Role.String(), "fault": f.kind,
+					"outcome": "panic: " + pf.Msg, "panic_is_runtime_error": pf.Runtime, "operand_words_changed": nch}
+			})
 		}
 		cls, own := panicClass(pf, "lapack:")
 		weak := false
